@@ -1,5 +1,6 @@
 import Varpulis.Lemmas.Zdd
 import Varpulis.Lemmas.ZddTable
+import Varpulis.Lemmas.ZddIter
 /-!
 # C07 — canonicity, reducedness, ordering, iteration order; gc
 
@@ -135,6 +136,36 @@ theorem arena_iteration_once_ascending (t : Table) (h : TWF t) (r : Ref) (hv : V
 and the handles denote the model trees: canonicity is a theorem, not an observation -/
 theorem judge_canonicity_test_redundant (t : Table) (regs : List (Nat × Ref)) (model : Nat → Z) :
     judgeTable t regs model ≠ .notCanonical := judge_never_notCanonical t regs model
+
+/-! ### the iterators as step machines (`ArenaIterator` in arena.rs, `ZddIterator` in iter.rs) -/
+
+/-- **`ArenaIterator` yields exactly `sets`.** The explicit-stack machine (`(ref, branch)` frames, one shared
+path vector with push/pop), started at a valid handle of a well-formed table and run until `next()` returns
+`None`, terminates within `stepsA (treeOf t r) + 1` loop iterations (three per node, one per terminal —
+the fuel bound is part of the statement), never indexes out of bounds, and returns the members in
+exactly the order of `Zdd.sets`: lo branch before hi branch, each member once, elements ascending
+(`arena_iteration_once_ascending`). -/
+theorem iterator_yields_sets (t : Table) (h : TWF t) (r : Ref) (hv : Valid t r) :
+    AIter.collect t (stepsA (treeOf t r) + 1) (AIter.new r) = some (sets (treeOf t r)) := aiter_collect h hv
+
+/-- more fuel never changes the result -/
+theorem iterator_fuel_monotone (t : Table) (h : TWF t) (r : Ref) (hv : Valid t r) (k : Nat) :
+    AIter.collect t (stepsA (treeOf t r) + 1 + k) (AIter.new r) = some (sets (treeOf t r)) :=
+  aiter_collect_any_fuel h hv k
+
+/-- `collect` is "call `next()` until `None`": a `next()` yielding `p` and leaving state `s'` puts `p` in front of
+what collecting from `s'` gives; a `next()` returning `None` ends the collection with nothing more -/
+theorem iterator_collect_is_repeated_next (t : Table) (f : Nat) (s : AIter) :
+    (∀ p s', AIter.next t f s = some (some p, s') → ∀ g l, AIter.collect t g s' = some l →
+      AIter.collect t (f + g) s = some (p :: l)) ∧
+    (∀ s', AIter.next t f s = some (none, s') → AIter.collect t f s = some []) := anext_collect f s
+
+/-- **`ZddIterator` (standalone `Zdd::iter`, frames own their path) yields exactly `sets`** -/
+theorem zdd_iterator_yields_sets (t : Table) (h : TWF t) (r : Ref) (hv : Valid t r) :
+    ZIter.collect t (stepsZ (treeOf t r) + 1) (ZIter.new r) = some (sets (treeOf t r)) := ziter_collect h hv
+
+/-- non-vacuity: the machine on {{1},{0,1}} -/
+example : AIter.collect #[⟨1, .E, .B⟩, ⟨0, .N 0, .N 0⟩] 14 (AIter.new (.N 1)) = some [[1], [0, 1]] := by decide
 
 /-- non-vacuity: a three-node table ({{1},{0,1}} and {{1}}) is well-formed and accepted by the judge -/
 example : TWF #[⟨1, .E, .B⟩, ⟨0, .N 0, .N 0⟩] ∧
